@@ -134,3 +134,81 @@ fn zc_x86_step() {
     }
     std::mem::forget(callee);
 }
+
+#[cfg(kani)]
+#[kani::proof]
+#[kani::unwind(7)]
+fn p_confidence() {
+    let d = minidump_processor::BitFlipDetails { was_non_canonical: kani::any(), is_null: kani::any(), was_low: kani::any(), nearby_registers: kani::any(), poison_registers: kani::any() };
+    let c = d.confidence();
+    assert!(c >= 0.0 && c <= 1.0);
+}
+
+#[cfg(kani)]
+#[kani::proof]
+#[kani::unwind(7)]
+fn zd_x86_scan() {
+    use minidump::format::CONTEXT_X86;
+    let mut ctx = CONTEXT_X86::default();
+    ctx.eip = kani::any(); ctx.esp = kani::any(); ctx.ebp = kani::any();
+    let callee = StackFrame::from_context(MinidumpContext::from_raw(MinidumpRawContext::X86(ctx.clone())), FrameTrust::Context);
+    let bytes: [u8; 16] = kani::any();
+    let base: u64 = kani::any();
+    kani::assume(base <= u32::MAX as u64);
+    let mem = MinidumpMemory { desc: Default::default(), base_address: base, size: 16, bytes: &bytes, endian: Endian::Little };
+    let modules = MinidumpModuleList::new();
+    let si = SystemInfo { os: minidump::system_info::Os::Linux, os_version: None, os_build: None, cpu: minidump::system_info::Cpu::X86, cpu_info: None, cpu_microcode_version: None, cpu_count: 1 };
+    let p = NoSyms { valid: false };
+    let r = block_on(verif_x86_scan(&ctx, &callee, UnifiedMemory::Memory(&mem), &modules, &si, &p));
+    if let Some(f) = r { assert!(f.trust == FrameTrust::Scan); std::mem::forget(f); }
+    std::mem::forget(callee);
+}
+
+#[cfg(kani)]
+#[kani::proof]
+#[kani::unwind(7)]
+fn ze_x86_cfi() {
+    use minidump::format::CONTEXT_X86;
+    let mut ctx = CONTEXT_X86::default();
+    ctx.eip = kani::any(); ctx.esp = kani::any(); ctx.ebp = kani::any();
+    let callee = StackFrame::from_context(MinidumpContext::from_raw(MinidumpRawContext::X86(ctx.clone())), FrameTrust::Context);
+    let bytes: [u8; 16] = kani::any();
+    let base: u64 = kani::any();
+    kani::assume(base <= u32::MAX as u64);
+    let mem = MinidumpMemory { desc: Default::default(), base_address: base, size: 16, bytes: &bytes, endian: Endian::Little };
+    let modules = MinidumpModuleList::new();
+    let si = SystemInfo { os: minidump::system_info::Os::Linux, os_version: None, os_build: None, cpu: minidump::system_info::Cpu::X86, cpu_info: None, cpu_microcode_version: None, cpu_count: 1 };
+    let p = NoSyms { valid: false };
+    let r = block_on(verif_x86_cfi(&ctx, &callee, UnifiedMemory::Memory(&mem), &modules, &si, &p));
+    if let Some(f) = r { assert!(f.trust == FrameTrust::CallFrameInfo); std::mem::forget(f); }
+    std::mem::forget(callee);
+}
+
+#[cfg(kani)]
+#[kani::proof]
+#[kani::unwind(8)]
+fn zf_fpo_real_walker() {
+    use minidump::format::CONTEXT_X86;
+    use breakpad_symbols::fuzzing_private_exports::{StackInfoWin, WinStackThing};
+    let mut ctx = CONTEXT_X86::default();
+    ctx.eip = kani::any(); ctx.esp = kani::any(); ctx.ebp = kani::any(); ctx.ebx = kani::any(); ctx.esi = kani::any();
+    let bytes: [u8; 16] = kani::any();
+    let base: u64 = kani::any(); kani::assume(base <= u32::MAX as u64);
+    let mem = MinidumpMemory { desc: Default::default(), base_address: base, size: 16, bytes: &bytes, endian: Endian::Little };
+    let module = MinidumpModule::new(0, 1, "m");
+    let valid = MinidumpContextValidity::All;
+    let saved: u32 = kani::any(); let local: u32 = kani::any(); let gcps: u32 = kani::any();
+    kani::assume(saved <= 64 && local <= 64 && gcps <= 64 && saved + gcps >= 8);
+    let info = StackInfoWin { address: 0, size: 16, prologue_size: 0, epilogue_size: 0, parameter_size: 0,
+        saved_register_size: saved, local_size: local, max_stack_size: 0,
+        program_string_or_base_pointer: WinStackThing::AllocatesBasePointer(kani::any()) };
+    let mut ok = false;
+    let (_c, v) = verif_with_cfi_walker_x86(&ctx, &valid, UnifiedMemory::Memory(&mem), &module, true, gcps, |w| {
+        ok = breakpad_symbols::walker::walk_with_stack_win_fpo(&info, w).is_some();
+    });
+    if ok {
+        assert!(v.contains("eip") && v.contains("esp") && v.contains("ebp"));
+        assert!(!v.contains("esi")); // STACK WIN must not forward registers it did not set
+    }
+    std::mem::forget(module); std::mem::forget(v);
+}
